@@ -228,6 +228,13 @@ var c07Catalogue = []construct{
 	{Name: "selector-on-call-result", Stmt: "_ = zqMk().a", Support: []string{supT, "func zqMk() *zqT {\n\treturn &zqT{a: 1}\n}"}},
 	{Name: "index-on-call-result", Stmt: "_ = zqMkS()[0]", Support: []string{"func zqMkS() []uint64 {\n\treturn make([]uint64, 1)\n}"}},
 	{Name: "slice-full-form-of-call-result", Stmt: "_ = zqMkS()[0:1]", Support: []string{"func zqMkS() []uint64 {\n\treturn make([]uint64, 1)\n}"}},
+	// two different declarations that are given the SAME Coq name (whatever goose does with them, it must not crash)
+	{Name: "function-named-like-a-mangled-method", Decl: "func zqT__zqm() uint64 {\n\treturn 1\n}", Broken: "zqT__zqm", Support: []string{supT, supTm}},
+	{Name: "two-methods-with-one-mangled-name", Decl: "func (a zqA__b) c() uint64 {\n\treturn 1\n}", Broken: "zqA__b.c", Support: []string{"type zqA struct {\n\ta uint64\n}", "type zqA__b struct {\n\ta uint64\n}", "func (a zqA) b__c() uint64 {\n\treturn 2\n}"}},
+	{Name: "type-named-like-a-mangled-method", Decl: "type zqC__D struct {\n\ta uint64\n}", Broken: "zqC__D", Support: []string{"type zqC struct {\n\ta uint64\n}", "func (c zqC) D() uint64 {\n\treturn c.a\n}"}},
+	{Name: "function-named-like-a-typecheck-theorem", Decl: "func zqF_t() uint64 {\n\treturn 1\n}", Broken: "zqF_t", Support: []string{"func zqF() uint64 {\n\treturn 2\n}"}},
+	{Name: "second-blank-function", Decl: "func _() uint64 {\n\treturn 1\n}", Broken: "_", Support: []string{"func _() {\n}"}},
+	{Name: "second-blank-variable", Decl: "var _ = uint64(4)", Broken: "_", Support: []string{"var _ uint64 = 3"}},
 	{Name: "conversion-to-named-func-result", Stmt: "_ = uint64(zqMk().a) + 1", Support: []string{supT, "func zqMk() *zqT {\n\treturn &zqT{a: 1}\n}"}},
 }
 
